@@ -47,9 +47,16 @@ func zzConsume(bs []eth.Block) int {
 
 // ZZ_C18_Shared: two tasks with data plans pa and pb fetch the same range
 // through one caching client concurrently and consume the blocks.
-func ZZ_C18_Shared(pa, pb int) {
+func ZZ_C18_Shared(pa, pb int) { zzC18Shared(pa, pb, false) }
+
+// ZZ_C18_SharedFail: the same with node failures (a solver Boolean per node
+// call): the error paths of the cache run concurrently with the other task.
+func ZZ_C18_SharedFail(pa, pb int) { zzC18Shared(pa, pb, true) }
+
+func zzC18Shared(pa, pb int, fail bool) {
 	ZZHonest(100, 1)
 	zzNode.TwoLogs = true
+	zzAllowFail = fail
 	zzStart, zzLimit, zzCurFilter = 100, 1, 2
 	c := New("http://node").WithMaxReads(4)
 	fa, fb := zzC18Plan(pa), zzC18Plan(pb)
@@ -71,7 +78,9 @@ func ZZ_C18_Shared(pa, pb int) {
 	})
 	err := eg.Wait()
 	zzvrf.RaceRecord(false)
-	zzvrf.Assert(err == nil, "both-fetches-succeed")
+	if !fail {
+		zzvrf.Assert(err == nil, "both-fetches-succeed")
+	}
 	zzvrf.RaceCheck("no-data-race")
 	zzvrf.Reach("end")
 }
